@@ -398,6 +398,25 @@ func (e *env) run(kind string) (bool, string) {
 			cancel()
 		}
 		return c.wait(), outcome(c)
+	case "pingForget":
+		// a fire-and-forget liveness probe: AsyncPing whose cancel function is never called, the peer stays silent - the
+		// housekeeping sweep is the only thing that ends its continuation (after the retransmissions are exhausted)
+		if _, err := cc.AsyncPing(func() {}); err != nil {
+			return true, "err"
+		}
+		if _, ok := e.waitOut(func(d memnet.Dgram) bool { return d.Type == message.Confirmable && d.Code == int(codes.Empty) }); !ok {
+			return false, "noping"
+		}
+		for _, d := range []int{3, 5, 7, 9, 11} { // ACK_TIMEOUT 2 s, MAX_RETRANSMIT 2
+			cc.CheckExpirations(time.Now().Add(time.Duration(d) * time.Second))
+		}
+		e.scan()
+		for i, d := range e.reqs {
+			if d.Type == message.Confirmable && d.Code == int(codes.Empty) {
+				e.taken[i] = true
+			}
+		}
+		return true, "forgotten"
 	case "oneWay":
 		req, err := cc.NewGetRequest(ctx, p)
 		if err != nil {
